@@ -276,3 +276,8 @@ func VerifC07_ConcurrentCAS3() {
 	zz.Assert(max == seed || res[0] || res[1] || res[2], "some report that advanced the mark wins")
 	zz.Reach("done")
 }
+
+// VerifC01_AccountingNeverMovesBackwards: the accounting step of C07 under C01's name ("Received
+// total equals Queued total equals the unique payload size ... for transfers healed by a
+// restart" needs totals and block indexes that never move backwards, whatever is replayed).
+func VerifC01_AccountingNeverMovesBackwards() { VerifC07_OneStep() }
